@@ -14,6 +14,7 @@ import time
 import traceback
 
 VERIF = os.path.dirname(os.path.dirname(os.path.abspath(__file__)))
+OUT = os.environ.get("VERIF_OUT") or VERIF  # where replays/ and evidence/ are written (scratch runs set VERIF_OUT)
 RUN_TIMEOUT = 240
 
 
@@ -200,8 +201,8 @@ def shrink(profile, prop, seed, cfg, ops, want, stop_props, budget=400):
 
 
 def write_replay(prop, profile, res, ops, want, attempts):
-    os.makedirs(os.path.join(VERIF, "replays"), exist_ok=True)
-    path = os.path.join(VERIF, "replays", f"{prop}-{res['seed']}.json")
+    os.makedirs(os.path.join(OUT, "replays"), exist_ok=True)
+    path = os.path.join(OUT, "replays", f"{prop}-{res['seed']}.json")
     doc = {
         "property": prop,
         "profile": profile,
